@@ -845,6 +845,16 @@ class Runner:
             else:
                 for i, x, st in self.pending_externals():
                     choices.append(("ext", i, x, st))
+            if shell_blocked is not None and self.sc.get("stall_shell"):
+                # fault: the shell itself is stalled (SIGSTOP) while it drains a capture pipe or feeds a
+                # here-string; its children go on; it is continued later
+                if getattr(self, "stalled", False):
+                    if not [c for c in choices if c[0] == "pup"]:
+                        self.unstall()
+                        return False
+                    choices.append(("unstall",))
+                elif getattr(self, "stalls_left", 2) > 0 and [c for c in choices if c[0] == "pup"]:
+                    choices.append(("stall",))
             if not choices:
                 self.no_choice(shell_at, shell_blocked)
                 return False
@@ -861,6 +871,17 @@ class Runner:
                 return True
             if c[0] == "pup":
                 self.do_step(c[1], c[2])
+            elif c[0] == "stall":
+                self.stalls_left = getattr(self, "stalls_left", 2) - 1
+                os.kill(sim.shell_pid, signal.SIGSTOP)
+                sim.wait_state(sim.shell_pid, "T", "stall of the shell")
+                self.stalled = True
+                sim.fault("shell_stalled")
+                sim.ev("shell stalled")
+                continue
+            elif c[0] == "unstall":
+                self.unstall()
+                return False
             elif c[0] == "cont":
                 self.signal_stage(c[1], signal.SIGCONT, "cont")
             elif c[0] == "killstopped":
@@ -870,7 +891,7 @@ class Runner:
                 sim.probe("member_killed_while_stopped")
             else:
                 self.do_external(c[1], c[2], c[3])
-            if shell_blocked is not None:
+            if shell_blocked is not None and not getattr(self, "stalled", False):
                 # the shell may have been woken up by that step
                 return False
 
@@ -901,13 +922,20 @@ class Runner:
                 raise Violation("epipe_missing", "%s can still write to %s although its reader is gone "
                                                  "(some process still holds the read end)" % (st.label(), p.label))
 
+    def unstall(self):
+        sim = self.sim
+        os.kill(sim.shell_pid, signal.SIGCONT)
+        sim.wait_state(sim.shell_pid, "RSDZX", "continuation of the shell")
+        self.stalled = False
+        sim.ev("shell continued")
+
     def drain_choice(self, choices):
         """cooperative phase: every role is run to completion fairly and the
         shell is released whenever possible; pending external signals are dropped"""
         for c in choices:
-            if c[0] == "cont":
+            if c[0] in ("cont", "unstall"):
                 return c
-        choices = [c for c in choices if c[0] != "killstopped"] or choices
+        choices = [c for c in choices if c[0] not in ("killstopped", "stall")] or choices
         for c in choices:
             if c[0] == "shell":
                 return c
